@@ -30,6 +30,28 @@ add("C05", "exploration", "runtime monitoring: label-based text oracle on anonym
     "All 64 mask/wildcard values in several spellings and their one-bit perturbations, preserved-network edges, and inverse probes that would expose a colliding preimage directly.",
     "Independent mask predicate and integer membership test.", "DESIGN.md 2/C05")
 
+add("C06", "exploration", "runtime monitoring: label-based text oracle + independent token scanner over exhaustively enumerated short strings, fresh-instance reference map",
+    "Every labelled token in every spelling/delimiter combination sampled; all strings over two boundary alphabets and all piece sequences up to a bound enumerated and compared with an independent scanner. One known finding (IPv6 with dotted-quad tail).",
+    "Token definition taken from the property's quantifier; validity decided by ipaddress; ambiguous overlapping runs skipped and counted.", "DESIGN.md 2/C06")
+add("C07", "exploration", "runtime monitoring: relational two-run monitor (same document, two secret valuations) with log capture and substring search for secret cores; pattern-group probe for coverage evidence",
+    "Independence from secret content observed for every catalogue form x admissible class in several variants and for multi-line documents with repetition patterns; leaks in 7 (form, class) combinations are listed known findings.",
+    "The form catalogue is fixed data written from vendor syntax; secrets exclude quote/terminator characters as the quantifier says.", "DESIGN.md 2/C07")
+add("C08", "exploration", "runtime monitoring: unique-id histories, position-based extraction, independent decoders; lookup invariants asserted after every line",
+    "id -> pseudonym observed to be a function and injective over documents with heavy repetition, mixed classes, enclosing variants and $9$ re-encodings; live lookup grows monotonically with distinct values.",
+    "Forms with a known C07 finding are not drawn.", "DESIGN.md 2/C08")
+add("C09", "exploration", "runtime monitoring: independent decoders / shape checks on extracted replacements, contract on the real value anonymizer",
+    "Every replacement observed for every class x form x enclosing x first salt character is accepted by an independent decoder for the original's class and the line keeps its template shape. One known finding (all-digit type 7).",
+    "Own type-7 and $9$ decoders written from the published algorithms; crypt shapes by regex.", "DESIGN.md 2/C09")
+add("C10", "exploration", "runtime monitoring: substring-search oracle + label-based token oracle + fresh-anonymizer pseudonym reference, CLI children under varied PYTHONHASHSEED",
+    "No listed word observed in any output outside reserved tokens; reserved tokens and reserved secret values unchanged; pseudonyms equal those a fresh single-word anonymizer gives; outputs equal across hash seeds.",
+    "Word lists obey the quantifier's side condition; module-level reserved set restored between cases.", "DESIGN.md 2/C10")
+add("C11", "exploration", "runtime monitoring: independent digit-run scanner and block table on recorded outputs; fault injection of digest values at the module boundary for range extremes",
+    "Every maximal digit run equal to a listed number replaced by the fresh-anonymizer value inside the original's block; longer numbers untouched; range extremes driven through a digest stub.",
+    "ASCII digits only; canonical decimal list entries.", "DESIGN.md 2/C11")
+add("C12", "exploration", "runtime monitoring: label-based per-line structure oracle over all 16 feature subsets, metamorphic locality runs (whole / alone / permuted / split), file-level API with CRLF",
+    "Line count, terminators, leading/trailing whitespace, benign and switched-off items and separators conserved on every observed text; each line independent of the others modulo pseudonym renumbering.",
+    "Benign vocabulary is fixed data; tokens are re-labelled from content where a random value happens to contain a listed item.", "DESIGN.md 2/C12")
+
 
 def main():
     checks = []
